@@ -24,7 +24,8 @@ class QueueCheck:
         s.cap = world.devices[s.dev]['queue']
         s.depth = params['depth']
         s.one_buffer = params.get('one_buffer', False)
-        s.process = params.get('process')            # None | chunk size: the messages are streamed through process::<64>
+        s.process = params.get('process')            # None | chunk size: the messages are streamed through process::<pn>
+        s.pn = params.get('pn', 64)
         s.twin = params.get('twin', False)
         s.t1 = world.devices[s.dev]['cmds'][0]['cmd'] == 'A:B'
 
@@ -100,7 +101,7 @@ class QueueCheck:
         if s.process:
             from ..world import ScriptAdapter
             ad = ScriptAdapter(list(b''.join(msgs)), tail=s.process)
-            w.process(dev, 64, ad)
+            w.process(dev, s.pn, ad)
             wr.items = list(ad.out)
         elif s.one_buffer:
             w.run(dev, list(b''.join(msgs)), wr)
@@ -132,8 +133,8 @@ class QueueCheck:
         if v:
             m = v[1] if v[1] is not None else ex.path_model()
             nums = [n if isinstance(n, int) else m.eval(n, model_completion=True).as_signed_long() for n in s.customs]
-            rec['violations'] = [{'rule': rule, 'what': f'{v[0]}; operations {s.ops} on {s.dev} (capacity {s.cap})' + (' in one buffer' if s.one_buffer else '') + (f' through process::<64>, {s.process} bytes per read' if s.process else ''), 'input': b''.join(s.msgs).hex(),
-                                  'messages': [mm.hex() for mm in s.msgs], 'device': s.dev, 'ops': s.ops, 'custom_numbers': nums, 'one_buffer': s.one_buffer, 'process': s.process,
+            rec['violations'] = [{'rule': rule, 'what': f'{v[0]}; operations {s.ops} on {s.dev} (capacity {s.cap})' + (' in one buffer' if s.one_buffer else '') + (f' through process::<{s.pn}>, {s.process} bytes per read' if s.process else ''), 'input': b''.join(s.msgs).hex(),
+                                  'messages': [mm.hex() for mm in s.msgs], 'device': s.dev, 'ops': s.ops, 'custom_numbers': nums, 'one_buffer': s.one_buffer, 'process': s.process, 'pn': s.pn,
                                   'role': f'{rule}:cap{s.cap}'}]
         if hash(tuple(map(str, ex.decisions))) % 257 == 0:
             rec['sample'] = {'device': s.dev, 'operations': s.ops}
